@@ -10,6 +10,7 @@
 -/
 import Basyx.Lemmas.Codec
 import Basyx.Gen.JsonTable
+import Basyx.Lemmas.Dispatch
 namespace Basyx.C03
 open Basyx.Codec Basyx.Gen.Json
 
@@ -125,5 +126,43 @@ example : ConfV jsonTable (.poly ["Property"]) demoProp := by
   simp [demoProp, ConfV, ConfF, ConfL, rowsOf, tagOf, jsonTable, rows_Property, DomOk, truthyVal, List.find?, isEmptyTok]
 
 example : dec jsonTable false (.poly ["Property"]) (enc jsonTable false demoProp) = .ok demoProp := by rfl
+
+/-! ### Instances of application-defined subclasses are written like instances of the class they specialise
+
+The round-trip theorems are about values of the metamodel classes.  An application may derive its own classes (the readers
+support it: every constructor takes `object_class`); what such an instance is written as is decided by two pieces of code,
+regenerated into `Gen/Dispatch.lean` on every run: how `_abstract_classes_to_json` computes `modelType`, and how
+`_create_dict` sorts a store's objects into the three top-level lists. -/
+
+open Basyx.Dispatch in
+/-- (re-checked against the source on every run) `modelType` is the first class of the object's method resolution order that
+    is a key of KEY_TYPES_CLASSES, and the top-level lists are filled by an `isinstance` chain over the three identifiable
+    classes -/
+theorem c03_class_dispatch :
+    nameByOf Gen.Dispatch.modelTypeBy = some .mroFirstHit ∧ sortByOf Gen.Dispatch.jsonStoreBy = some .isinstance ∧
+    Gen.Dispatch.jsonStoreRows.map (·.1) = ["AssetAdministrationShell", "Submodel", "ConceptDescription"] ∧
+    (Gen.Dispatch.jsonStoreRows.map (·.2)).Nodup := by decide
+
+open Basyx.Dispatch in
+/-- **Subclass-closed, any depth of derivation**: for every class `c` and every chain of application-defined classes
+    `class n₁(c)`, `class n₂(n₁)`, ... (names that are not names of metamodel classes) the `modelType` written and the top-level
+    list chosen are those of `c` itself - with the naming and sorting the code has (`c03_class_dispatch`). -/
+theorem c03_subclass_instances_written_alike (known : List String) (ns : List String) (c : PyClass)
+    (hk : ∀ n ∈ ns, known.contains n = false) (hr : ∀ n ∈ ns, ∀ r ∈ Gen.Dispatch.jsonStoreRows, r.1 ≠ n) :
+    modelTypeOf .mroFirstHit known (deriveMany ns c) = modelTypeOf .mroFirstHit known c ∧
+    listOf .isinstance Gen.Dispatch.jsonStoreRows (deriveMany ns c) = listOf .isinstance Gen.Dispatch.jsonStoreRows c :=
+  ⟨modelType_deriveMany known ns c hk, listOf_deriveMany _ ns c hr⟩
+
+open Basyx.Dispatch in
+/-- the two other ways of naming the class are NOT subclass-closed (what the first theorem excludes): an `AppSubmodel(Submodel)`
+    would be written with a `modelType` no reader knows, or refused, and a table keyed by the exact class leaves it out of
+    the document -/
+theorem c03_other_dispatches_lose_subclasses :
+    let app := derive "AppSubmodel" (sdkClass "Submodel" ["Identifiable", "Referable"])
+    modelTypeOf .mroFirstHit ["Submodel"] app = some "Submodel" ∧
+    modelTypeOf .ownName ["Submodel"] app = some "AppSubmodel" ∧
+    modelTypeOf .exactOrRaise ["Submodel"] app = none ∧
+    listOf .isinstance Gen.Dispatch.jsonStoreRows app = some "submodels" ∧
+    listOf .typeTable Gen.Dispatch.jsonStoreRows app = none := by decide
 
 end Basyx.C03
